@@ -285,6 +285,7 @@ func c15(c *Ctx) {
 		c.check(okv, r, fnName(f)+":microseconds", c.pos(f.Pos()), "interprets its argument as microseconds", "TimeFromInt64 no longer converts from microseconds")
 	}
 
+	c15CursorAdvance(c, "C15.6/cursor-advance-matches-read", c16Decoders)
 	// ---- C15.5 proto conversions of metadata carry every attribute -------------------------------------------------------------
 	r = "C15.5/proto-conversion-coverage"
 	for _, p := range []struct{ fn, pkg, typ string }{
@@ -347,4 +348,105 @@ func sameSet(a, b map[string]bool) bool {
 		}
 	}
 	return true
+}
+
+// c15CursorAdvance: decoders in this repository walk a buffer with an integer cursor: read a field at b[i:], then
+// advance i by the width of that field. Within a basic block, when the cursor is advanced by a constant after
+// fixed-width reads at that cursor, the increment must equal the extent of what was read there: a larger or
+// smaller step makes every following field be read from the wrong position (decoder and encoder stop being inverse).
+func c15CursorAdvance(c *Ctx, r string, fns []string) {
+	n := 0
+	for _, name := range fns {
+		f := c.fn(name)
+		if f == nil {
+			continue
+		}
+		for _, g := range append([]*ssa.Function{f}, allAnon(f)...) {
+			p := newProver(c, g)
+			per := 0
+			for _, b := range g.Blocks {
+				// extent consumed relative to a cursor value, keyed by the cursor SSA value
+				ext := map[ssa.Value]int64{}
+				note := func(low ssa.Value, w int64) {
+					// low = cur + d
+					cur, d := splitConst(low)
+					if e := d + w; e > ext[cur] {
+						ext[cur] = e
+					}
+				}
+				for _, in := range b.Instrs {
+					switch x := in.(type) {
+					case *ssa.Call:
+						cn := calleeName(&x.Call)
+						w := int64(0)
+						switch {
+						case strings.HasSuffix(cn, "ndian).Uint16"):
+							w = 2
+						case strings.HasSuffix(cn, "ndian).Uint32"):
+							w = 4
+						case strings.HasSuffix(cn, "ndian).Uint64"):
+							w = 8
+						}
+						if w > 0 {
+							arg := x.Call.Args[len(x.Call.Args)-1]
+							if sl, ok := arg.(*ssa.Slice); ok && sl.High == nil && sl.Low != nil && isByteSliceLike(sl.X.Type()) {
+								note(sl.Low, w)
+							}
+						}
+					case *ssa.Slice:
+						if x.Low != nil && x.High != nil && isByteSliceLike(x.X.Type()) {
+							d := p.linOf(x.High).add(p.linOf(x.Low), -1)
+							if len(d.terms) == 0 && d.c > 0 {
+								note(x.Low, d.c)
+							}
+						}
+					case *ssa.BinOp:
+						if x.Op != token.ADD {
+							continue
+						}
+						k, ok := constInt64(x.Y)
+						u := x.X
+						if !ok {
+							k, ok = constInt64(x.X)
+							u = x.Y
+						}
+						if !ok {
+							continue
+						}
+						base, d0 := splitConst(u)
+						e, seen := ext[base]
+						if !seen || d0 >= e {
+							continue // nothing was read at this cursor value (it already points past what was consumed)
+						}
+						n++
+						per++
+						c.check(d0+k == e, r, fmt.Sprintf("%s:advance#%d", fnName(g), per), c.pos(x.Pos()), fmt.Sprintf("cursor advanced by %d to the end (+%d) of what was read", k, e),
+							fmt.Sprintf("the cursor moves to +%d although the reads at it end at +%d: the fields that follow are decoded from the wrong offset", d0+k, e))
+					}
+				}
+			}
+		}
+	}
+	c.count("cursor_advances", n)
+	if n < 10 {
+		c.undecided(r, "floor", fmt.Sprintf("%d cursor advances after fixed-width reads found", n))
+	}
+}
+
+// splitConst: v = cur + d with d constant (d = 0 when v is not an addition with a constant)
+func splitConst(v ssa.Value) (ssa.Value, int64) {
+	if bo, ok := v.(*ssa.BinOp); ok && bo.Op == token.ADD {
+		if k, ok := constInt64(bo.Y); ok {
+			cur, d := splitConst(bo.X)
+			return cur, d + k
+		}
+		if k, ok := constInt64(bo.X); ok {
+			cur, d := splitConst(bo.Y)
+			return cur, d + k
+		}
+	}
+	if _, ok := constInt64(v); ok {
+		return nil, 0
+	}
+	return v, 0
 }
